@@ -42,7 +42,12 @@ func (u *underLog) hasFinal() bool {
 }
 
 func (u *underLog) Header() http.Header { return u.h }
-func (u *underLog) WriteHeader(c int)   { u.hdrs = append(u.hdrs, c) }
+func (u *underLog) WriteHeader(c int) {
+	if c < 100 || c > 999 { // as net/http does
+		panic(fmt.Sprintf("invalid WriteHeader code %v", c))
+	}
+	u.hdrs = append(u.hdrs, c)
+}
 func (u *underLog) Write(b []byte) (int, error) {
 	if !u.hasFinal() {
 		u.hdrs = append(u.hdrs, 200) // a net/http writer sends the implicit 200 itself
@@ -230,8 +235,19 @@ func runWriterScript(v writerVariant, path []*wedge, last *wedge, nodes map[stri
 			var got any
 			switch op.Call {
 			case "WriteHeader":
-				w.WriteHeader(op.Arg[0])
+				refused := false
+				func() {
+					defer func() {
+						if recover() != nil {
+							refused = true
+						}
+					}()
+					w.WriteHeader(op.Arg[0])
+				}()
 				got = op.Ret // no return value; the effect is compared through the state
+				if want := op.Ret == "refused"; refused != want {
+					got = map[bool]string{true: "the underlying writer refused the code (panic)", false: "no panic"}[refused]
+				}
 			case "Write", "WriteString":
 				data := fresh(op.Arg[0])
 				u.budget = op.Arg[1]
@@ -370,6 +386,30 @@ func runWriterScript(v writerVariant, path []*wedge, last *wedge, nodes map[stri
 		failTool("fox.New: %v", err)
 	}
 	rt.MustHandle("POST", "/w", handler)
+	// FoxWriter's Init is the state of a recorder attached to a request, whatever the recycled context served
+	// before: an earlier request over an underlying writer of ANOTHER kind exercises every optional capability
+	// and an informational header, then the script runs (on the same goroutine, so normally on the same context)
+	rt.MustHandle("POST", "/warm", func(c fox.Context) {
+		w := c.Writer()
+		_ = w.FlushError()
+		_ = w.Push("/p", nil)
+		_ = w.SetReadDeadline(time.Time{})
+		_ = w.SetWriteDeadline(time.Time{})
+		_ = w.EnableFullDuplex()
+		w.WriteHeader(204)
+		_ = w.FlushError()
+	})
+	{
+		wu := &underLog{h: http.Header{}, budget: -1}
+		var wcalls []string
+		wflushed := 0
+		other := writerVariants[(len(path)+len(v.caps))%len(writerVariants)]
+		if other.name == v.name {
+			other = writerVariants[(len(path)+len(v.caps)+1)%len(writerVariants)]
+		}
+		wreq, _ := newRequest("POST", "", "/warm", "")
+		rt.ServeHTTP(other.mk(wu, &wcalls, &wflushed), wreq)
+	}
 	req, _ := newRequest("POST", "", "/w", "")
 	func() {
 		defer func() {
@@ -436,7 +476,7 @@ func checkC14(r *Run) {
 	for _, v := range writerVariants {
 		gen := fmt.Sprintf(`---- MODULE Gen_Writer ----
 GenCaps == %s
-GenCodes == {100, 103, 101, 200, 404, 500}
+GenCodes == {100, 103, 101, 200, 404, 500, 99}
 GenWriteSizes == %s
 GenReadFroms == %s
 GenMaxCalls == %d
